@@ -211,6 +211,12 @@ def deviations(n, thorough):
         for name in ("HelloRequest", "ServerHelloDone", "Finished12",
                      "KeyUpdate", "EmptyCertificate"):
             out.append(("replace", i, name))
+        # extra messages that the deviant keeps out of its *own* transcript:
+        # if the victim drops them silently everything else still verifies
+        # (a repetition of the deviant's hello, a ticket, a HelloRequest)
+        if i > 0:
+            for name in ("OwnHello", "HelloRequest", "NewSessionTicket12"):
+                out.append(("insert_quiet", i, name))
         out.append(("straddle", i))
         if i == n - 1:
             # after the adversary's last handshake message, i.e. once the
@@ -296,6 +302,15 @@ class Rewriter(object):
             elif k == "insert" and d[1] == i:
                 ct, b = INSERTS[d[2]]
                 out = [adv.Raw(ct, b, TOKNAME.get(d[2]))] + out
+                touched = True
+            elif k == "insert_quiet" and d[1] == i:
+                if d[2] == "OwnHello":
+                    ct, b = 22, self.hon_log[0][2]
+                else:
+                    ct, b = INSERTS[d[2]]
+                m = adv.Raw(ct, b, TOKNAME.get(d[2]))
+                m.nohash = True
+                out = [m] + out
                 touched = True
             elif k == "replace" and d[1] == i:
                 ct, b = INSERTS[d[2]]
@@ -531,12 +546,13 @@ def run_case(ctx, cid, P):
     v_hs = R.s_hs if role == "client" else R.c_hs
     v_data = R.s_data if role == "client" else R.c_data
     dclass = "+".join(x[0] + (":" + x[2] if x[0] in ("insert", "replace",
-                                                     "append")
+                                                     "append",
+                                                     "insert_quiet")
                               else "") for x in devs)
     fam = "tls13" if sc.ver == (3, 4) else ("ssl3" if sc.ver == (3, 0)
                                             else "le12")
     def what(x):
-        if x[0] in ("insert", "replace", "append"):
+        if x[0] in ("insert", "replace", "append", "insert_quiet"):
             return TOKNAME.get(x[2], x[2])
         return tname(hon_seq[x[1]]) if x[1] < len(hon_seq) else None
     key = {"victim": vrole, "fam": fam, "dev": dclass,
